@@ -322,6 +322,9 @@ pub fn search(v: &serde_json::Value) -> i32 {
         "main:\nli a0, 2\njal ra, h\nmv t0, a0\nli a0, 0\njal ra, h\nmv t1, a0\nli a7, 10\necall\nh:\nbeqz a0, zero_case\nli a0, 10\nret\nzero_case:\nli a0, 20\nret",
         "main:\nli s2, 1\nli t0, 0\nli t1, 3\nloop:\nmv a0, t0\njal ra, k\naddi s2, s2, 1\nli t1, 3\naddi t0, a0, 1\nblt t0, t1, loop\nmv t2, s2\nli a7, 10\necall\nk:\nret",
         "addi sp, sp, -4\nsw zero, 0(sp)\nsw a0, 0(sp)\nlw t1, 0(sp)\naddi sp, sp, 4",
+        // a slot that names a register whose own fact names another register: the chain must not be resolved after that register changed
+        "addi sp, sp, -8\nsw a0, 0(sp)\nlw t1, 0(sp)\nli a0, 5\nsw t1, 4(sp)\nlw t2, 4(sp)\naddi sp, sp, 8",
+        "main:\njal f\nli a7, 10\necall\nf:\naddi sp, sp, -8\nsw s1, 0(sp)\nlw t1, 0(sp)\naddi a0, s1, 0\nsw t1, 4(sp)\nli s1, 0\nlw s1, 4(sp)\naddi sp, sp, 8\nret",
         // a slot below sp does not survive a call of a function that uses its own frame
         "main:\nli t0, 5\nsw t0, -4(sp)\njal f\nlw t1, -4(sp)\nli a7, 10\necall\nf:\naddi sp, sp, -4\nsw zero, 0(sp)\naddi sp, sp, 4\nret",
         // what holds on a path falling into a function entry does not hold for a caller (gp is neither saved nor clobbered by convention)
